@@ -100,6 +100,17 @@ impl ReceiverInner {
         }),
 //@@ end
 }
+
+pub enum ReceiverAttachError { IllegalState, Other }
+impl ReceiverInner {
+//@@ fn file=fe2o3-amqp/src/link/receiver.rs impl=`~impl<L>LinkEndpointInnerReattachforReceiverInner<L>where` name=handle_reattach_outcome id=ReceiverInner::handle_reattach_outcome
+//@@ orsplit
+//@@ blockarms
+//@@ ret Result<&mut Self, ReceiverAttachError>
+//@@ spec
+    ensures (r is Ok) == (outcome is Complete), r is Ok ==> *r->Ok_0 == *old(self) && *final(self) == *final(r->Ok_0), r is Err ==> r->Err_0 is IllegalState && *final(self) == *old(self),       // [C13.reattach.only-a-complete-exchange-counts] a re-attach (a fresh attach: no unsettled deliveries on either side) is done only if the exchange came back complete; an exchange that talks about deliveries to resume is refused as an illegal state, the endpoint untouched
+//@@ end
+}
 } // mod rcv
 
 // ================================================================ sender
@@ -206,6 +217,17 @@ impl SenderInner {
         r is Ok ==> rounds(final(self).link.log@, old(self).link.log@.len() as int, initial_remote_attach, is_reattaching),       // [C13.resume.own-attach-then-the-peers] [C13.resume.peers-attach-used-once] with the peer's attach in hand the own attach goes out first and then THAT attach is taken up -- in the first round only: after a suspend-and-retry round the exchange is a fresh one
         suspended_after_resend(old(self).link.log@) ==> suspended_after_resend(final(self).link.log@),       // [C13.resume.resend-round-is-suspended] [C02.resume.resend-round-is-suspended] once unsettled messages have been sent again the link is suspended (detached) before the next attach exchange: the two ends re-attempt the resumption from the state the re-sent deliveries left (AMQP 1.0 part 2, 2.6.13)
         r is Ok ==> final(self).link.log@.last() is Exchange || final(self).link.log@.last() is PeerAttach,       // [C13.resume.ends-on-an-attach-exchange] [C02.resume.ends-on-an-attach-exchange] a resume reports success only right after an attach exchange that left nothing to resume: a round in which deliveries were resumed or re-sent is followed by another exchange (after a detach, where messages were re-sent), it is never the last one
+//@@ end
+}
+
+pub enum SenderAttachError { IllegalState, Other }
+impl SenderInner {
+//@@ fn file=fe2o3-amqp/src/link/sender.rs impl=`~impl<L>LinkEndpointInnerReattachforSenderInner<L>where` name=handle_reattach_outcome id=SenderInner::handle_reattach_outcome
+//@@ orsplit
+//@@ blockarms
+//@@ ret Result<&mut Self, SenderAttachError>
+//@@ spec
+    ensures (r is Ok) == (outcome is Complete), r is Ok ==> *r->Ok_0 == *old(self) && *final(self) == *final(r->Ok_0), r is Err ==> r->Err_0 is IllegalState && *final(self) == *old(self),       // [C13.reattach.only-a-complete-exchange-counts]
 //@@ end
 }
 } // mod snd
